@@ -367,7 +367,12 @@ class FaultFS(LocalFileSystem):
             if x in w.F:
                 w.emit({"op": "Put", "x": x, "res": "fail"}, {"op": "put"})
                 raise FAULT_KINDS[(w.fault_kind + w.nputs) % len(FAULT_KINDS)](to_info)
-            super().put_file(from_file, to_info, size=size, **kw)
+            try:
+                super().put_file(from_file, to_info, size=size, **kw)
+            except FileNotFoundError:
+                # the source does not hold the object after all (a stale source index promised it): a failed upload
+                w.emit({"op": "Put", "x": x, "res": "fail"}, {"op": "put"})
+                raise
             w.emit({"op": "Put", "x": x, "res": "ok"}, {"op": "put"})
 
 
